@@ -31,6 +31,7 @@ def opts(tier):
     o.max_segments = 8
     o.max_channels = 4
     o.props = False
+    o.huge_p = 0.004
     o.max_chunks = 6
     o.many_segments_p = 0.02
     o.p_none = 0.25
